@@ -2,7 +2,6 @@ package exec
 
 import (
 	"context"
-	"fmt"
 
 	"github.com/theory/sqljson/path/ast"
 )
@@ -85,10 +84,8 @@ func (exec *Executor) executePredicate(
 		for _, rVal := range rSeq.list {
 			// Check for interrupts: the pairs of two long sequences are many
 			// evaluation steps without any other check in between.
-			select {
-			case <-ctx.Done():
-				return predUnknown, fmt.Errorf("%w: %w", ErrExecution, ctx.Err())
-			default:
+			if err := interrupted(ctx); err != nil {
+				return predUnknown, err
 			}
 
 			res, err := callback(ctx, pred, lVal, rVal)
